@@ -44,7 +44,7 @@ def run(ctx):
     jobs = [
         lambda c: cc.refute_impl(c, "c34_impl"),
         lambda c: cc.generate_checked(c, "c34_pre", "preprocess", max_given=1 if q else 5, emit_upto=0 if q else 5),
-        lambda c: cc.generate_checked(c, "c34_date", "date", max_given=1 if q else 3, emit_upto=1 if q else 2),
+        lambda c: cc.generate_checked(c, "c34_date", "date", max_given=1 if q else 4, emit_upto=1 if q else 2),
         lambda c: cc.generate(c, "c34_date_sim", "date", max_given=16, emit_upto=16, simulate=160 if q else 6000),
         lambda c: cc.generate(c, "c34_pre_sim", "preprocess", max_given=16, emit_upto=16, simulate=120 if q else 1000),
     ]
